@@ -29,10 +29,20 @@ def Agree {α : Type} (p : Except PyErr α) (r : Except Err α) : Prop :=
 
 theorem same_bound : Gen.pyBlobTooLarge = Gen.decodeSizeMax := by decide
 
-/-- outside the 7-byte-prefix first byte `0xfe` (and the pair marker), `_atom_from_stream` and
-`parse_atom` read the same number of bytes and produce the same atom, or both fail -/
-theorem atom_agree (inp : Bytes) (b : UInt8) (hff : b.toNat ≠ 0xff) (hfe : b.toNat ≠ 0xfe) :
+/-- first byte `0xfe` (7 leading ones): both readers refuse -/
+theorem atom_agree_fe (inp : Bytes) (b : UInt8) (hfe : b.toNat = 0xfe) :
     Agree (atomFromStream inp b.toNat) (parseAtom inp b) := by
+  obtain ⟨e, he⟩ := decode_fe inp
+  have hs : stripLoop 9 254 128 0 = (7, 0) := by decide
+  simp [atomFromStream, parseAtom, parseAtomPtr, decodeSize, hfe, he, hs, Agree, Gen.pyMaxSingleByte,
+    MAX_SINGLE_BYTE]
+
+/-- for every first byte other than the pair marker, `_atom_from_stream` and `parse_atom` read the
+same number of bytes and produce the same atom, or both fail -/
+theorem atom_agree (inp : Bytes) (b : UInt8) (hff : b.toNat ≠ 0xff) :
+    Agree (atomFromStream inp b.toNat) (parseAtom inp b) := by
+  by_cases hfe : b.toNat = 0xfe
+  · exact atom_agree_fe inp b hfe
   have hb : b.toNat < 256 := b.toNat_lt
   by_cases e80 : b.toNat = 0x80
   · simp [atomFromStream, parseAtom, e80, Agree]
@@ -66,7 +76,8 @@ theorem atom_agree (inp : Bytes) (b : UInt8) (hff : b.toNat ≠ 0xff) (hfe : b.t
     simp only [hbe80, hbe1, hlo, hlo', h80, hs, hk, hmore, Bool.false_eq_true, if_false, fromBytesBig_eq,
       same_bound, Gen.decodeSizeMaxPrefix, List.length_cons]
     have hk8 : ¬ k ≥ 8 := by omega
-    simp only [hk8, if_false]
+    have hk6 : ¬ k > 6 := by omega
+    simp only [hk8, hk6, if_false]
     generalize hS : beFold 0 (UInt8.ofNat (b.toNat &&& 255 >>> k) :: List.take (k - 1) inp) = S
     by_cases hshort : inp.length < k - 1
     · have h1 : k > 1 := by omega
@@ -90,93 +101,96 @@ def opMap : ParseOp → Op
   | .sexp => .readSexp
   | .cons => .cons
 
-/-- **The defect region of finding H** (decidable): the readers, working through the input token by
-token, reach an atom whose first byte is `0xfe` — a 7-byte size prefix. -/
-def hits7 (inp : Bytes) (ops : List ParseOp) : Bool :=
-  match ops with
-  | [] => false
-  | .sexp :: ops' =>
-    match inp with
-    | [] => false
-    | b :: rest =>
-      if b.toNat == 0xff then hits7 rest (.sexp :: .sexp :: .cons :: ops')
-      else if b.toNat == 0xfe then true
-      else
-        match parseAtom rest b with
-        | .error _ => false
-        | .ok (n, _) => hits7 (rest.drop n) ops'
-  | .cons :: ops' => hits7 inp ops'
-termination_by (inp.length, ops.length)
-decreasing_by
-  · simp_wf; left; omega
-  · simp_wf; left; omega
-  · simp_wf; right; omega
-
-theorem loop_agree (inp : Bytes) (ops : List ParseOp) (vals : List Tree) (h : hits7 inp ops = false) :
+/-- **`sexp_from_stream` and `node_from_stream` agree on every input, work stack and value stack**:
+same tree and same unread remainder, or both fail. -/
+theorem loop_agree (inp : Bytes) (ops : List ParseOp) (vals : List Tree) :
     Agree (sexpFromStreamGo inp (ops.map opMap) vals) (nodeFromStream inp ops vals) := by
-  fun_induction hits7 inp ops generalizing vals with
-  | case1 inp =>
-    cases vals <;> simp [sexpFromStreamGo, nodeFromStream, Agree]
-  | case2 ops' =>
+  fun_induction nodeFromStream inp ops vals with
+  | case1 inp v vs => simp [sexpFromStreamGo, Agree]
+  | case2 inp => simp [sexpFromStreamGo, Agree]
+  | case3 vals ops' => simp [sexpFromStreamGo, opMap, Agree]
+  | case4 vals ops' b rest hb ih =>
     simp only [List.map_cons, opMap]
-    rw [sexpFromStreamGo, nodeFromStream]
-    simp [opMap, Agree]
-  | case3 ops' b rest hb ih =>
+    rw [sexpFromStreamGo]
+    have hb' : (b.toNat == Gen.pyConsBoxMarker) = true := by simpa [Gen.pyConsBoxMarker, CONS_BOX_MARKER] using hb
+    simp only [hb', if_true]
+    simpa [opMap] using ih
+  | case5 vals ops' b rest hb e he =>
     simp only [List.map_cons, opMap]
-    rw [sexpFromStreamGo, nodeFromStream]
-    have hb' : (b.toNat == Gen.pyConsBoxMarker) = true := by simpa [Gen.pyConsBoxMarker] using hb
-    have hb'' : (b.toNat == CONS_BOX_MARKER) = true := by simpa [CONS_BOX_MARKER] using hb
-    simp only [opMap, hb', hb'', if_true]
-    have := ih vals h
-    simpa [opMap] using this
-  | case4 ops' b rest hb hfe => simp at h
-  | case5 ops' b rest hb hfe e he =>
-    simp only [List.map_cons, opMap]
-    rw [sexpFromStreamGo, nodeFromStream]
-    have hb' : (b.toNat == Gen.pyConsBoxMarker) = false := by simpa [Gen.pyConsBoxMarker] using hb
-    have hb'' : (b.toNat == CONS_BOX_MARKER) = false := by simpa [CONS_BOX_MARKER] using hb
-    simp only [opMap, hb', hb'', Bool.false_eq_true, if_false]
-    have ha := atom_agree rest b (by simpa using hb) (by simpa using hfe)
-    rw [he] at ha ⊢
+    rw [sexpFromStreamGo]
+    have hb' : (b.toNat == Gen.pyConsBoxMarker) = false := by simpa [Gen.pyConsBoxMarker, CONS_BOX_MARKER] using hb
+    simp only [hb', Bool.false_eq_true, if_false]
+    have ha := atom_agree rest b (by simpa [CONS_BOX_MARKER] using hb)
+    rw [he] at ha
     cases hp : atomFromStream rest b.toNat with
     | error e' => simp [Agree]
     | ok v => rw [hp] at ha; simp [Agree] at ha
-  | case6 ops' b rest hb hfe n t he ih =>
+  | case6 vals ops' b rest hb n t he ih =>
     simp only [List.map_cons, opMap]
-    rw [sexpFromStreamGo, nodeFromStream]
-    have hb' : (b.toNat == Gen.pyConsBoxMarker) = false := by simpa [Gen.pyConsBoxMarker] using hb
-    have hb'' : (b.toNat == CONS_BOX_MARKER) = false := by simpa [CONS_BOX_MARKER] using hb
-    simp only [opMap, hb', hb'', Bool.false_eq_true, if_false]
-    have ha := atom_agree rest b (by simpa using hb) (by simpa using hfe)
-    rw [he] at ha ⊢
+    rw [sexpFromStreamGo]
+    have hb' : (b.toNat == Gen.pyConsBoxMarker) = false := by simpa [Gen.pyConsBoxMarker, CONS_BOX_MARKER] using hb
+    simp only [hb', Bool.false_eq_true, if_false]
+    have ha := atom_agree rest b (by simpa [CONS_BOX_MARKER] using hb)
+    rw [he] at ha
     cases hp : atomFromStream rest b.toNat with
     | error e' => rw [hp] at ha; simp [Agree] at ha
     | ok v =>
       rw [hp] at ha
       simp only [Agree] at ha
       subst ha
-      exact ih (t :: vals) h
-  | case7 inp ops' ih =>
+      exact ih
+  | case7 inp ops' v2 v1 vs ih =>
+    simp only [List.map_cons, opMap]
+    rw [sexpFromStreamGo]
+    exact ih
+  | case8 inp vals ops' hv =>
     simp only [List.map_cons, opMap]
     match vals with
-    | [] => simp [sexpFromStreamGo, nodeFromStream, Agree]
-    | [_] => simp [sexpFromStreamGo, nodeFromStream, Agree]
-    | v2 :: v1 :: vs =>
-      rw [sexpFromStreamGo, nodeFromStream]
-      exact ih _ h
+    | [] => simp [sexpFromStreamGo, Agree]
+    | [_] => simp [sexpFromStreamGo, Agree]
+    | v2 :: v1 :: vs => exact absurd rfl (hv v2 v1 vs)
 
-/-- the documented example of finding H -/
+/-! ### historical: the transcription before the repair of finding H (/repo commit 61f724c)
+
+`_atom_from_stream` had no `bit_count > 6` check.  Kept to document why the check is necessary: the
+old reader accepted a 7-byte size prefix that the Rust decoder rejects. -/
+
+/-- `_atom_from_stream` as it was before 61f724c -/
+def atomFromStreamOld (inp : Bytes) (b : Nat) : Except PyErr (Nat × Tree) :=
+  if b == 0x80 then .ok (0, .atom [])
+  else if b ≤ Gen.pyMaxSingleByte then .ok (0, .atom [UInt8.ofNat b])
+  else
+    let (bitCount, b') := stripLoop 9 b 0x80 0
+    let more := if bitCount > 1 then inp.take (bitCount - 1) else []
+    if bitCount > 1 ∧ more.length ≠ bitCount - 1 then .error (.valueError "bad encoding")
+    else
+      let sizeBlob := UInt8.ofNat b' :: more
+      let size := fromBytesBig sizeBlob
+      if size ≥ Gen.pyBlobTooLarge then .error (.valueError "blob too large")
+      else
+        let rest := inp.drop more.length
+        let blob := rest.take size
+        if blob.length ≠ size then .error (.valueError "bad encoding")
+        else .ok (more.length + size, .atom blob)
+
+/-- the documented example of finding H: `fe 00 00 00 00 00 01 41` -/
 def witnessH : Bytes := [0xfe, 0x00, 0x00, 0x00, 0x00, 0x00, 0x01, 0x41]
 
-theorem py_accepts_witness : sexpFromStream witnessH = .ok (.atom [0x41], []) := by
+/-- the old reader decoded the witness to the atom `A` … -/
+theorem old_accepts_witness : atomFromStreamOld witnessH.tail 0xfe = .ok (7, .atom [0x41]) := by
   have hs : stripLoop 9 254 128 0 = (7, 0) := by decide
-  simp [sexpFromStream, witnessH, sexpFromStreamGo, atomFromStream, hs, fromBytesBig, Gen.pyConsBoxMarker,
-    Gen.pyMaxSingleByte, Gen.pyBlobTooLarge]
+  simp [atomFromStreamOld, witnessH, hs, fromBytesBig, Gen.pyMaxSingleByte, Gen.pyBlobTooLarge]
 
+/-- … which the Rust decoder rejects, and so does the repaired reader -/
 theorem rust_rejects_witness : ∃ e, nodeFromStream witnessH [.sexp] [] = .error e :=
   nodeFromStream_fe 0xfe (by decide) _ _ _
 
-theorem witness_in_region : hits7 witnessH [.sexp] = true := by
-  simp [witnessH, hits7]
+theorem new_rejects_witness : ∃ e, sexpFromStream witnessH = .error e := by
+  have ha := loop_agree witnessH [.sexp] []
+  obtain ⟨e, he⟩ := rust_rejects_witness
+  rw [he] at ha
+  cases hp : sexpFromStreamGo witnessH ([ParseOp.sexp].map opMap) [] with
+  | error e' => exact ⟨e', by simpa [sexpFromStream, opMap] using hp⟩
+  | ok v => rw [hp] at ha; simp [Agree] at ha
 
 end Clvm.Py.DeLemmas
